@@ -678,6 +678,12 @@ class Program(object):
             return out
         if path == "std::thread::spawn":
             return out          # new root, not an edge
+        # a provided method of std's Iterator trait (`try_fold`, `map`, `collect` ...) on a crate-local iterator drives
+        # that iterator's own `next`
+        if c.get("trait") == "std::iter::Iterator" and not path.endswith("::next"):
+            nb = self._local_iter_next(c)
+            if nb is not None:
+                out.append((nb, "extern-iter"))
         # extern function receiving closures: it may call them before returning
         for a in site.term["args"]:
             pl = a.get("move") or a.get("copy")
@@ -687,6 +693,24 @@ class Program(object):
             if cd and cd in self.bodies:
                 out.append((self.bodies[cd], "extern-cb"))
         return out
+
+    def _local_iter_next(self, callee):
+        """`<T as Iterator>::next` of the crate-local type T an extern Iterator method is called on (None if T is not
+        local)."""
+        ga = [g for g in callee.get("gargs", []) if isinstance(g, int)]
+        if not ga:
+            return None
+        cache = self.__dict__.setdefault("_iter_next_cache", {})
+        key = ga[0]
+        if key not in cache:
+            self_s = self.ty_str(self.strip_refs(key)).split("<")[0]
+            found = None
+            for b2 in self.bodies.values():
+                if b2.raw.get("impl_trait") == "std::iter::Iterator" and b2.path.endswith("::next") and \
+                        (b2.raw.get("impl_self") or "").split("<")[0] == self_s:
+                    found = b2
+            cache[key] = found
+        return cache[key]
 
     def spawned_closures(self):
         out = []
